@@ -3,6 +3,7 @@ package props
 import (
 	"fmt"
 	"sort"
+	"strings"
 	"testing"
 	"time"
 
@@ -411,10 +412,15 @@ func min(a, b int) int {
 
 func TestC20(t *testing.T) {
 	names := []string{"email", "description", "mail", "sn", "name", "title"}
-	val := rapid.OneOf(rapid.StringMatching(`[a-zA-Z0-9@. _-]{0,12}`), rapid.SampledFrom([]string{"", "x", "a b", "test-add-attribute", "\x04\x03abc", "é", "v1", "v2"}))
+	long := rapid.Custom(func(t *rapid.T) string {
+		n := rapid.SampledFrom([]int{127, 128, 129, 200, 255, 256, 1000, 5000}).Draw(t, "longlen")
+		return strings.Repeat(rapid.SampledFrom([]string{"x", "ab", "0"}).Draw(t, "longunit"), n)[:n]
+	})
+	short := rapid.OneOf(rapid.StringMatching(`[a-zA-Z0-9@. _-]{0,12}`), rapid.SampledFrom([]string{"", "x", "a b", "test-add-attribute", "\x04\x03abc", "é", "v1", "v2"}))
+	val := rapid.OneOf(short, short, short, short, short, short, short, long)
 	lab.Prop[c20Case]{
 		ID: "C20", Part: "store",
-		Rule: "rapid state machine: up to 30 steps of Add / Modify (add-value, delete-attribute, replace; 1..3 changes) / Delete (users and groups) / Search (user base, group base) / SetUsers / SetGroups over fixed-width DN pools (6 users, 6 groups, not substrings of one another), issued by 1..3 go-ldap clients one operation at a time; oracle = in-memory reference model updated in lock-step; after EVERY step every DN of the pool is searched (by entry DN, the way the repository's tests do) and compared with the model (values modulo one level of OCTET STRING wrapping); non-trivial = a search that follows a mutation of the same DN; distinct by hash of (step prefix, DN)",
+		Rule: "rapid state machine: up to 30 steps of Add / Modify (add-value, delete-attribute, replace; 1..3 changes) / Delete (users and groups) / Search (user base, group base) / SetUsers / SetGroups with values of 0..12 characters and occasionally 127..5000 bytes, over fixed-width DN pools (6 users, 6 groups, not substrings of one another), issued by 1..3 go-ldap clients one operation at a time; oracle = in-memory reference model updated in lock-step; after EVERY step every DN of the pool is searched (by entry DN, the way the repository's tests do) and compared with the model (values modulo one level of OCTET STRING wrapping); non-trivial = a search that follows a mutation of the same DN; distinct by hash of (step prefix, DN)",
 		Gen: func(t *rapid.T) c20Case {
 			c := c20Case{
 				InitUsers:  rapid.SliceOfN(rapid.IntRange(0, 5), 0, 4).Draw(t, "initusers"),
